@@ -12,6 +12,7 @@ import (
 	"errors"
 	"flag"
 	"fmt"
+	"io"
 	"math/rand"
 	"os"
 	"os/exec"
@@ -837,6 +838,201 @@ func validStream(n int, exhaustLen int) {
 	}
 }
 
+// ---------------------------------------------------------------- comparison with encoding/json
+// (the clause of C17 that is compared, not proved: dynamic values, maps, slices, pointers and
+// run-time generated struct types with json tags, in both directions)
+
+func normStd(b []byte) string {
+	s := string(b)
+	// the spelling of U+0008 / U+000C differs between Go releases
+	s = strings.ReplaceAll(s, `\b`, `\u0008`)
+	s = strings.ReplaceAll(s, `\f`, `\u000c`)
+	return s
+}
+
+var tagPool = []string{"", `json:"a"`, `json:"b,omitempty"`, `json:"-"`, `json:"c,string"`, `json:",omitempty"`, `json:"d,omitempty,string"`, `json:"e e"`, `json:"-,"`}
+
+func genFieldType(depth int) reflect.Type {
+	switch rng.Intn(11) {
+	case 0:
+		return reflect.TypeOf("")
+	case 1:
+		return reflect.TypeOf(int(0))
+	case 2:
+		return reflect.TypeOf(float64(0))
+	case 3:
+		return reflect.TypeOf(false)
+	case 4:
+		return reflect.TypeOf([]int(nil))
+	case 5:
+		return reflect.TypeOf(map[string]int(nil))
+	case 6:
+		return reflect.TypeOf((*int)(nil))
+	case 7, 8:
+		return reflect.TypeOf((*interface{})(nil)).Elem()
+	case 9:
+		return reflect.TypeOf([]string(nil))
+	default:
+		if depth > 0 {
+			return genStructType(depth - 1)
+		}
+		return reflect.TypeOf(uint8(0))
+	}
+}
+
+func genStructType(depth int) reflect.Type {
+	n := 1 + rng.Intn(4)
+	var fs []reflect.StructField
+	for i := 0; i < n; i++ {
+		fs = append(fs, reflect.StructField{Name: fmt.Sprintf("F%d", i), Type: genFieldType(depth), Tag: reflect.StructTag(tagPool[rng.Intn(len(tagPool))])})
+	}
+	return reflect.StructOf(fs)
+}
+
+func fillValue(v reflect.Value, depth int) {
+	zero := chance(0.35)
+	switch v.Kind() {
+	case reflect.String:
+		if !zero {
+			v.SetString(strPool[rng.Intn(len(strPool))])
+		}
+	case reflect.Int, reflect.Uint8:
+		if !zero {
+			if v.Kind() == reflect.Int {
+				v.SetInt(int64(rng.Intn(2000) - 1000))
+			} else {
+				v.SetUint(uint64(rng.Intn(200)))
+			}
+		}
+	case reflect.Float64:
+		if !zero {
+			v.SetFloat([]float64{0.5, -1, 1e21, 1e-7, 3, 100, 1e20, 0.000001}[rng.Intn(8)])
+		}
+	case reflect.Bool:
+		v.SetBool(!zero)
+	case reflect.Slice:
+		if chance(0.3) {
+			return // nil
+		}
+		n := 0
+		if !zero {
+			n = 1 + rng.Intn(2)
+		}
+		sl := reflect.MakeSlice(v.Type(), n, n)
+		for i := 0; i < n; i++ {
+			fillValue(sl.Index(i), depth)
+		}
+		v.Set(sl)
+	case reflect.Map:
+		if chance(0.3) {
+			return
+		}
+		m := reflect.MakeMap(v.Type())
+		if !zero {
+			for i := 0; i < 1+rng.Intn(2); i++ {
+				m.SetMapIndex(reflect.ValueOf(keyPool[rng.Intn(len(keyPool))]), reflect.ValueOf(rng.Intn(10)))
+			}
+		}
+		v.Set(m)
+	case reflect.Ptr:
+		if !zero {
+			p := reflect.New(v.Type().Elem())
+			fillValue(p.Elem(), depth)
+			v.Set(p)
+		}
+	case reflect.Interface:
+		// nil, or an interface holding a (possibly empty) value
+		switch rng.Intn(8) {
+		case 0:
+		case 1:
+			v.Set(reflect.ValueOf(""))
+		case 2:
+			v.Set(reflect.ValueOf(0))
+		case 3:
+			v.Set(reflect.ValueOf(false))
+		case 4:
+			v.Set(reflect.ValueOf([]int{}))
+		case 5:
+			v.Set(reflect.ValueOf(map[string]int{}))
+		case 6:
+			v.Set(reflect.ValueOf(strPool[rng.Intn(len(strPool))]))
+		default:
+			v.Set(reflect.ValueOf([]interface{}{1.5, "x", nil}))
+		}
+	case reflect.Struct:
+		for i := 0; i < v.NumField(); i++ {
+			fillValue(v.Field(i), depth)
+		}
+	}
+}
+
+func stdcmpStream(n int) {
+	for i := 0; i < n; i++ {
+		if chance(0.5) {
+			// dynamic values: decode a text with both, encode both results
+			g := genOpts{depth: 1 + rng.Intn(3), ws: chance(0.5), lone: chance(0.2), scalarRoot: true, dupKeys: chance(0.1)}
+			b := []byte(genDoc(g))
+			if chance(0.2) {
+				b = mutate(b)
+			}
+			var v1, v2 interface{}
+			var e1, e2 error
+			st := guarded(func() { e1 = ijson.Unmarshal(b, &v1) })
+			// the standard library with UseNumber (the fork always keeps number literals), whole input
+			dec := stdjson.NewDecoder(bytes.NewReader(b))
+			dec.UseNumber()
+			e2 = dec.Decode(&v2)
+			if e2 == nil {
+				var extra interface{}
+				if err := dec.Decode(&extra); err != io.EOF {
+					e2 = errors.New("trailing data")
+				}
+			}
+			same := (e1 == nil) == (e2 == nil)
+			var o1, o2 []byte
+			if st == "ok" && e1 == nil && e2 == nil {
+				o1, _ = ijson.Marshal(v1)
+				o2, _ = stdjson.Marshal(v2)
+				// the fork decodes numbers as Number (a string type); compare the re-encoded texts by value
+				same = same && (normStd(o1) == normStd(o2) || sameJSON(o1, o2))
+			}
+			emit("stdcmp", kv{"what", "dynamic"}, kv{"in", hx(b)}, kv{"status", st}, kv{"same", b2s(same)}, kv{"ours", hx(o1)}, kv{"std", hx(o2)})
+			continue
+		}
+		t := genStructType(2)
+		v := reflect.New(t)
+		fillValue(v.Elem(), 2)
+		var o1, o2 []byte
+		var e1, e2 error
+		st := guarded(func() { o1, e1 = ijson.Marshal(v.Interface()) })
+		o2, e2 = stdjson.Marshal(v.Interface())
+		same := st == "ok" && (e1 == nil) == (e2 == nil) && normStd(o1) == normStd(o2)
+		// and back: decode the standard library's output into fresh values with both, encode with the standard library
+		var b1, b2 []byte
+		if same && e2 == nil {
+			w1, w2 := reflect.New(t), reflect.New(t)
+			var d1, d2 error
+			st2 := guarded(func() { d1 = ijson.Unmarshal(o2, w1.Interface()) })
+			d2 = stdjson.Unmarshal(o2, w2.Interface())
+			// each library re-encodes what it decoded (the fork decodes numbers held in interfaces as its
+			// own Number type, which only the fork prints as a number); compared as JSON values
+			b1, _ = ijson.Marshal(w1.Interface())
+			b2, _ = stdjson.Marshal(w2.Interface())
+			same = st2 == "ok" && (d1 == nil) == (d2 == nil) && sameJSON(b1, b2)
+		}
+		emit("stdcmp", kv{"what", "struct"}, kv{"in", hx([]byte(t.String()))}, kv{"status", st}, kv{"same", b2s(same)}, kv{"ours", hx(o1)}, kv{"std", hx(o2)}, kv{"back1", hx(b1)}, kv{"back2", hx(b2)})
+	}
+}
+
+// sameJSON: equal as JSON values, numbers by float64 (the two libraries spell some floats differently)
+func sameJSON(a, b []byte) bool {
+	var x, y interface{}
+	if stdjson.Unmarshal(a, &x) != nil || stdjson.Unmarshal(b, &y) != nil {
+		return false
+	}
+	return reflect.DeepEqual(x, y)
+}
+
 // ---------------------------------------------------------------- command line tool
 
 func cliStream(n int, bin string) {
@@ -1250,6 +1446,8 @@ func main() {
 	switch *stream {
 	case "apply-c01":
 		applyStream(applyCfg{name: *stream, pTestOK: 0.75, kinds: allKinds, pRetry: 0.8}, *n)
+	case "stdcmp":
+		stdcmpStream(*n)
 	case "apply-rootnull":
 		rootNullStream(*n)
 	case "apply-any":
